@@ -132,6 +132,9 @@ def main():
             signal.setitimer(signal.ITIMER_REAL, per_case)
             if line.startswith("J "):
                 req = json.loads(line[2:])
+                if req.get("budget"):
+                    # a bound proportional to the size of the case, computed by the caller
+                    signal.setitimer(signal.ITIMER_REAL, max(per_case, float(req["budget"])))
                 ans = "J " + json.dumps(JOPS[req["op"]](req), sort_keys=True)
             else:
                 tok = line.split()
